@@ -133,11 +133,11 @@ pub fn ctor(name: &str, blob: &[u8]) -> String {
             img(&*t, format!("{}:{}:{}", t.start_address(), t.end_address(), sres(t.cmdline())))
         }
         "meminfo" => {
-            let t = BasicMemoryInfoTag::new(r.u32(), r.u32());
+            let t = BasicMemoryInfoTag::new(r.u32() as _, r.u32() as _);
             img(&t, format!("{}:{}", t.memory_lower(), t.memory_upper()))
         }
         "bootdev" => {
-            let t = BootdevTag::new(r.u32(), r.u32(), r.u32());
+            let t = BootdevTag::new(r.u32() as _, r.u32() as _, r.u32() as _);
             img(&t, format!("{}:{}:{}", t.biosdev(), t.slice(), t.part()))
         }
         "mmap" => {
@@ -229,15 +229,15 @@ pub fn ctor(name: &str, blob: &[u8]) -> String {
             img(&*t, format!("{}:{}:{}", t.number_of_sections(), t.entry_size(), t.shndx()))
         }
         "apm" => {
-            let t = ApmTag::new(r.u16(), r.u16(), r.u32(), r.u16(), r.u16(), r.u16(), r.u16(), r.u16(), r.u16());
+            let t = ApmTag::new(r.u16() as _, r.u16() as _, r.u32() as _, r.u16() as _, r.u16() as _, r.u16() as _, r.u16() as _, r.u16() as _, r.u16() as _);
             img(&t, format!("{}:{}:{}:{}:{}:{}:{}:{}:{}", t.version(), t.cseg(), t.offset(), t.cset_16(), t.dseg(), t.flags(), t.cseg_len(), t.cseg_16_len(), t.dseg_len()))
         }
         "efi32" => {
-            let t = EFISdt32Tag::new(r.u32());
+            let t = EFISdt32Tag::new(r.u32() as _);
             img(&t, format!("{}", t.sdt_address()))
         }
         "efi64" => {
-            let t = EFISdt64Tag::new(r.u64());
+            let t = EFISdt64Tag::new(r.u64() as _);
             img(&t, format!("{}", t.sdt_address()))
         }
         "smbios" => {
@@ -248,12 +248,12 @@ pub fn ctor(name: &str, blob: &[u8]) -> String {
         }
         "rsdp1" => {
             r.o = 8;
-            let t = RsdpV1Tag::new(r.u8(), r.arr::<6>(), r.u8(), r.u32());
+            let t = RsdpV1Tag::new(r.u8() as _, r.arr::<6>(), r.u8() as _, r.u32() as _);
             img(&t, format!("{}:{}", t.revision(), t.rsdt_address()))
         }
         "rsdp2" => {
             r.o = 8;
-            let t = RsdpV2Tag::new(r.u8(), r.arr::<6>(), r.u8(), r.u32(), r.u32(), r.u64(), r.u8());
+            let t = RsdpV2Tag::new(r.u8() as _, r.arr::<6>(), r.u8() as _, r.u32() as _, r.u32() as _, r.u64() as _, r.u8() as _);
             img(&t, format!("{}:{}:{}", t.revision(), t.xsdt_address(), t.ext_checksum()))
         }
         "network" => {
@@ -291,15 +291,15 @@ pub fn ctor(name: &str, blob: &[u8]) -> String {
             if a == b { a } else { b }
         }
         "ih32" => {
-            let t = EFIImageHandle32Tag::new(r.u32());
+            let t = EFIImageHandle32Tag::new(r.u32() as _);
             img(&t, format!("{}", t.image_handle()))
         }
         "ih64" => {
-            let t = EFIImageHandle64Tag::new(r.u64());
+            let t = EFIImageHandle64Tag::new(r.u64() as _);
             img(&t, format!("{}", t.image_handle()))
         }
         "loadbase" => {
-            let t = ImageLoadPhysAddrTag::new(r.u32());
+            let t = ImageLoadPhysAddrTag::new(r.u32() as _);
             img(&t, format!("{}", t.load_base_addr()))
         }
         "end" => {
@@ -308,7 +308,7 @@ pub fn ctor(name: &str, blob: &[u8]) -> String {
         }
         // ---------------------------------------------------------------- header crate
         "h_address" => {
-            let t = h::AddressHeaderTag::new(hflag(r.u16()), r.u32(), r.u32(), r.u32(), r.u32());
+            let t = h::AddressHeaderTag::new(hflag(r.u16() as _), r.u32() as _, r.u32() as _, r.u32() as _, r.u32() as _);
             himg(&t, format!("{}:{}:{}:{}", t.header_addr(), t.load_addr(), t.load_end_addr(), t.bss_end_addr()))
         }
         "h_console" => {
@@ -324,27 +324,27 @@ pub fn ctor(name: &str, blob: &[u8]) -> String {
             if a == b { a } else { b }
         }
         "h_entry" => {
-            let t = h::EntryAddressHeaderTag::new(hflag(r.u16()), r.u32());
+            let t = h::EntryAddressHeaderTag::new(hflag(r.u16() as _), r.u32() as _);
             himg(&t, format!("{}", t.entry_addr()))
         }
         "h_efi32" => {
-            let t = h::EntryEfi32HeaderTag::new(hflag(r.u16()), r.u32());
+            let t = h::EntryEfi32HeaderTag::new(hflag(r.u16() as _), r.u32() as _);
             himg(&t, format!("{}", t.entry_addr()))
         }
         "h_efi64" => {
-            let t = h::EntryEfi64HeaderTag::new(hflag(r.u16()), r.u32());
+            let t = h::EntryEfi64HeaderTag::new(hflag(r.u16() as _), r.u32() as _);
             himg(&t, format!("{}", t.entry_addr()))
         }
         "h_fb" => {
-            let t = h::FramebufferHeaderTag::new(hflag(r.u16()), r.u32(), r.u32(), r.u32());
+            let t = h::FramebufferHeaderTag::new(hflag(r.u16() as _), r.u32() as _, r.u32() as _, r.u32() as _);
             himg(&t, format!("{}:{}:{}", t.width(), t.height(), t.depth()))
         }
         "h_modalign" => {
-            let t = h::ModuleAlignHeaderTag::new(hflag(r.u16()));
+            let t = h::ModuleAlignHeaderTag::new(hflag(r.u16() as _));
             himg(&t, String::new())
         }
         "h_efibs" => {
-            let t = h::EfiBootServiceHeaderTag::new(hflag(r.u16()));
+            let t = h::EfiBootServiceHeaderTag::new(hflag(r.u16() as _));
             himg(&t, String::new())
         }
         "h_reloc" => {
